@@ -44,7 +44,8 @@ FLAVOURS = {
     "tsan": ("g++", ["-O1", "-g", "-fsanitize=thread", "-DVQ_NO_COUNT"]),
     "tsan-clang": ("clang++", ["-O1", "-g", "-fsanitize=thread",
                                "-DVQ_NO_COUNT"]),
-    "vg": ("g++", ["-O1", "-g"]),
+    # run under valgrind: the driver's own operator new (failpoints) is off
+    "vg": ("g++", ["-O1", "-g", "-DVF_NO_FAILPOINTS"]),
     "cov": ("g++", ["-O0", "--coverage"]),
 }
 
